@@ -126,6 +126,8 @@ def run():
     mout = run_cases(mreqs, label="C07 messages with the user's text")
     for k, (t, src, kind) in enumerate(mmeta):
         top, held = mout[f"M{2 * k}"]["end"], mout[f"M{2 * k + 1}"]["end"]
+        if top.startswith(("discarded:", "fuel:")) or held.startswith(("discarded:", "fuel:")):
+            continue
         plain = t
         msg = top.split(":", 2)[2] if top.startswith("err:") and top.count(":") >= 2 else None
         ok = msg is not None and top.startswith(f"err:{kind}:") and plain in msg and held == "val:[" + pvlib_quote(kind) + ", " + pvlib_quote(msg) + "]"
